@@ -27,6 +27,10 @@ RULE = ('templates: a fixed catalogue exercising every block tag and the '
         'thread inside cook/render while another thread then runs inside the '
         'same template object.  Distinct = (template, namespaces, schedule), '
         'enumerated schedules are distinct by construction.')
+RULE += (
+         'Also: returns through finally parts; two-preemption sweeps '
+         'at block-tag lines and in the call path (DT_String.py) of a '
+         'template rendered once before. ')
 ASSUMPTIONS = [
     'preemption happens at Python line granularity inside the package; '
     'races inside one line or inside C code of dependencies are not explored',
